@@ -8,7 +8,7 @@ d = "/tmp/mut/%sok%s" % (pid, tag)
 if not os.path.exists(d):
     os.makedirs("/tmp/mut", exist_ok=True)
     subprocess.run(["git", "-C", "/repo", "worktree", "add", "--detach", d, "HEAD"], check=True, stdout=subprocess.DEVNULL, stderr=subprocess.DEVNULL)
-print(f"""You are working on Ruschm, a small R7RS Scheme interpreter written in Rust. Your own scratch git worktree of it is at {d} (work ONLY inside that directory; never read or touch /repo or /verif). The sandbox has no network: always build and test with `cargo test --offline` / `cargo build --offline` inside {d}.
+print(f"""You are working on Ruschm, a small R7RS Scheme interpreter written in Rust. Your own scratch git worktree of it is at {d} (work ONLY inside that directory; never read or touch /repo or /verif). NEVER use `git stash` (the stash is shared between all worktrees of this repository and other people work in theirs): to test on unchanged sources, save `git diff > /tmp/<yourname>.diff`, run `git checkout -- src`, and re-apply with `git apply`. The sandbox has no network: always build and test with `cargo test --offline` / `cargo build --offline` inside {d}.
 
 This is the text of a semantic property that Ruschm satisfies:
 
